@@ -184,6 +184,7 @@ func (x *Exec) hashMethod(e *Env, recv ast.Expr, h HashV, name string, n *ast.Ca
 		}
 		e.st.mem[a] = ArrayV{T: arr, N: -1, Elem: byteT}
 		nl := Add(b.Len, d.Len)
+		x.appendInPlace(e, b, old, arr, nl)
 		return SliceV{Alloc: a, Off: b.Off, Len: nl, Cap: nl, Elem: byteT, Nil: FalseT, Typ: b.Typ}, true
 	case "Reset":
 		h.Chunks = append([]hchunk{}, h.Chunks[:h.NKey]...)
